@@ -55,9 +55,17 @@ pub fn expected(op: &str, a: &[Vec<u8>]) -> Option<(Resp, usize)> {
         }
         "fe.invert" => (ok(&[], &[fe!(0).inv()]), 1),
         "fe.batch_invert" => {
+            // (inverses cached per distinct operand: the long batches repeat a few values)
+            let mut cache: std::collections::HashMap<Vec<u8>, Fp> = std::collections::HashMap::new();
             let mut v = vec![];
             for i in 0..a.len() {
-                v.push(fe!(i).inv());
+                if let Some(x) = cache.get(&a[i]) {
+                    v.push(x.clone());
+                } else {
+                    let x = fe!(i).inv();
+                    cache.insert(a[i].clone(), x.clone());
+                    v.push(x);
+                }
             }
             let n = v.len();
             (ok(&[], &v), n)
